@@ -161,6 +161,9 @@ func (r *renderer) showInURL(env *env, v any, ctx ast.Context) error {
 
 	if r.query {
 		if r.removeQuestionMark {
+			if s == "" {
+				return nil
+			}
 			c := s[len(s)-1]
 			r.addAmpersand = c != '&'
 			_, err := pathEscape(out, s, ctx == ast.ContextQuotedAttr)
